@@ -48,7 +48,7 @@ def cases(maxlen, maxitems, maxtotal, namesets):
     return args
 
 quick = cases(2, 3, 3, [0, 1, 2])
-thorough = cases(3, 3, 4, [0, 1, 2, 3, 4])
+thorough = cases(3, 3, 3, [0, 1, 2, 3, 4]) + [[loc, style, exp, 0, 4, -1, -1, 0] for (loc, style, exp, shape) in ENTRIES if shape == 0]
 spec = {
  "property": "C06",
  "level": "model_checking",
@@ -62,7 +62,7 @@ spec = {
  ],
  "bounds": {
   "table": "all 48 syntactically possible (location, style, explode, shape) entries; each is first classified by the REAL openapi/parser.validateParamStyle (executed from SSA) and driven only when admitted (spaceDelimited is filtered as the generator does)",
-  "values": "quick: scalar 0..2 symbolic bytes, arrays of 0..3 items, objects of 0..2 fields (0: none of the optional fields set), at most 3 symbolic bytes in total; thorough: lengths to 3, at most 4 symbolic bytes (5 did not finish within the budget); every byte ranges over all 256 values",
+  "values": "quick: scalar 0..2 symbolic bytes, arrays of 0..3 items, objects of 0..2 fields (0: none of the optional fields set), at most 3 symbolic bytes in total; thorough: item/field lengths to 3 with at most 3 symbolic bytes in total, scalars to 4 bytes, two more field-name sets (4 and 5 symbolic bytes in arrays/objects did not finish within 80 minutes and are not claimed); every byte ranges over all 256 values",
   "names": "parameter name 'p'; object field-name sets {a,b}, {a,x=y}, {a,'c,d'} (thorough also {a,'e;f'}, {a,g.h})",
   "cookie_escape": "escape/unescape pair on every string of length 0..5 (quick) / 0..8 (thorough)"},
  "assumptions": ["generated code's driving pattern (EncodeValue/EncodeArray/EncodeField, Result, url.PathUnescape, HasParam, DecodeParam) is reproduced by the harness", "log.Printf in net/http cookie sanitising is a no-op", "generator filter isSupportedParamStyle (spaceDelimited not implemented) is hard-coded", "formatting of error messages is opaque"],
